@@ -2,6 +2,7 @@
    of whose leaves are closed has no satisfying interpretation among the finite
    constant-domain Kripke models of the logic's frame class. *)
 From Coq Require Import List Bool Arith Lia.
+From PT Require Tab.PropDecide.
 From PT Require Import Util.Finite Sem.Values Sem.Lit Sem.Syntax Sem.Schema Sem.Gen Sem.Closure Sem.Model
   Tab.Node Tab.PropTab Tab.PropSound Tab.FullTab.
 Import ListNotations.
@@ -690,3 +691,28 @@ Section Sound.
         * apply (Fin t' _ tk M f (or_introl eq_refl) (or_introl eq_refl) Hck' Hm Hf Hs). intros n [<-|[]]. exact I2.
   Qed.
 End Sound.
+
+(* ---- argument level ---- *)
+Definition fcountermodel (S : sem) (M : model) (u : nat) (prems : list sent) (concl : sent) : Prop :=
+  In u (m_worlds M) /\
+  (forall p, In p prems -> t_des (s_t S) (eval S M u env0 p) = true) /\
+  t_des (s_t S) (eval S M u env0 concl) = false.
+
+Definition neg_flips_t (t : tables) : bool :=
+  forallb (fun x => Bool.eqb (t_des t (t_un t Negation x)) (negb (t_des t x))) (t_vals t).
+
+Theorem argument_sound L : fsound_ok L -> (fl_hd L = false -> neg_flips_t (s_t (fl_S L)) = true) ->
+  forall t prems concl,
+    gcheck L t (trunk (fl_hd L) 0 prems concl) [] = true -> gall_closed t = true ->
+    forall M, model_ok L M -> forall u, ~ fcountermodel (fl_S L) M u prems concl.
+Proof.
+  intros OK Hneg t prems concl Hck Hac M Hm u [Hu [Hp Hc]].
+  apply (gcheck_sound L OK t _ [] Hck Hac (PropDecide.trunk_des_ok _ _ _ _) M (fun _ => u) Hm (fun _ => Hu)).
+  intros n Hn. unfold trunk in Hn. apply in_app_or in Hn. destruct Hn as [Hn|Hn].
+  - apply in_map_iff in Hn. destruct Hn as [p [<- Hin]]. simpl. apply Hp. exact Hin.
+  - destruct Hn as [<-|[]]. destruct (fl_hd L) eqn:Eh; simpl; [exact Hc|].
+    specialize (Hneg eq_refl). unfold neg_flips_t in Hneg. rewrite forallb_forall in Hneg.
+    assert (Hv : In (eval (fl_S L) M u env0 concl) (t_vals (s_t (fl_S L)))).
+    { apply eval_vals; [exact (fo_closed _ OK)|exact (fo_gen _ OK)|exact (mo_wf _ _ Hm)]. }
+    specialize (Hneg _ Hv). apply Bool.eqb_prop in Hneg. rewrite Hneg, Hc. reflexivity.
+Qed.
